@@ -253,7 +253,11 @@ impl ViCut {
 			let return_to_normal = cmd.flags.contains(CmdFlags::EXIT_CUR_MODE);
 
 
+			#[cfg(vicut_verif)]
+			let verif_cmd = cmd.clone();
 			self.exec_cmd(cmd)?;
+			#[cfg(vicut_verif)]
+			crate::verif::trace_after(self, &verif_cmd);
 			if return_to_normal {
 				self.set_normal_mode();
 			}
@@ -268,7 +272,11 @@ impl ViCut {
 					let return_to_normal = cmd.flags.contains(CmdFlags::EXIT_CUR_MODE);
 
 
+					#[cfg(vicut_verif)]
+					let verif_cmd = cmd.clone();
 					self.exec_cmd(cmd)?;
+					#[cfg(vicut_verif)]
+					crate::verif::trace_after(self, &verif_cmd);
 					if return_to_normal {
 						self.set_normal_mode();
 					}
